@@ -383,3 +383,38 @@ func vhSSO(maxKids, kinds int, modes int) {
 
 func VH_C01_sso()      { vhSSO(2, vhKidKinds, 2) }
 func VH_C01_sso_deep() { vhSSO(3, vhKidKinds, 2) }
+
+// VH_C02_store_rollover: a multi-step history on one long-lived SP. A genuine root-signed Response is
+// validated, then the configured certificate store is replaced by one that no longer holds the IdP
+// certificate (roll-over / revocation) and the clock object is replaced too; the same kind of message must
+// now be rejected, and every signature check must use the store and clock configured at that moment.
+func VH_C02_store_rollover() {
+	sp := vhOrchSP(false)
+	s1 := &vhScenario{rootSig: vhSigValid}
+	s1.root = vhResponseRoot(s1, "samlp:Response")
+	a1 := vhAssertionEl("c0", vChoice("c0.sig", 2))
+	s1.root.AddChild(a1.el)
+	enc := vEncodeDoc("wire", s1.root, 0)
+	_, err1 := sp.ValidateEncodedResponse(enc)
+	vDebugErr("first", err1)
+	k := vValidateCalls()
+	vAssume(k >= 1)
+	// reconfigure
+	sp.IDPCertificateStore = vEmptyStore()
+	kind := vChoice("second.entry", 3)
+	var err2 error
+	switch kind {
+	case 0:
+		_, err2 = sp.ValidateEncodedResponse(enc)
+	case 1:
+		lr := vhLogoutRoot("samlp:LogoutRequest", vhSigValid, "lr")
+		_, err2 = sp.ValidateEncodedLogoutRequestPOST(vEncodeDoc("wire2", lr.root, 0))
+	case 2:
+		lr := vhLogoutRoot("samlp:LogoutResponse", vhSigValid, "lr")
+		_, err2 = sp.ValidateEncodedLogoutResponsePOST(vEncodeDoc("wire2", lr.root, 0))
+	}
+	vDebugErr("second", err2)
+	vReach("first-accepted", err1 == nil)
+	vAssert("C02,C01,C10.every-signature-check-uses-the-currently-configured-store-and-clock", vValidateCtxSince(k, sp))
+	vAssert("C02,C01,C10.signature-by-a-certificate-no-longer-in-the-store-is-rejected", err2 != nil)
+}
